@@ -99,7 +99,8 @@ template<class S> struct TupleObj : Obj {
   typedef mc::TrackAlloc<S> AS; typedef compact_tuple_sketch<S, AS> CT;
   CT sk;
   explicit TupleObj(CT&& s): sk(std::move(s)) {}
-  std::string obs() {
+  std::string obs() { return obs_of(sk); }
+  template<class AnyTuple> static std::string obs_of(const AnyTuple& sk) {
     std::string o = "empty=" + str(sk.is_empty()) + "|ordered=" + str(sk.is_ordered()) + "|theta=" + mc::hex64(sk.get_theta64()) + "|n=" + str(sk.get_num_retained()) + "|seedhash=" + str(sk.get_seed_hash()) + "|est=" + str(sk.get_estimate());
     for (uint8_t s = 1; s <= 3; ++s) o += "|b" + str((int)s) + "=" + str(sk.get_lower_bound(s)) + "," + str(sk.get_upper_bound(s));
     std::vector<std::string> e; for (auto it = sk.begin(); it != sk.end(); ++it) e.push_back(mc::hex64(it->first) + ":" + vstr(it->second));
@@ -139,7 +140,8 @@ struct AodObj : Obj {
   typedef mc::TrackAlloc<double> AD; typedef array<double, AD> Arr; typedef compact_array_tuple_sketch<Arr, AD> CA;
   CA sk;
   explicit AodObj(CA&& s): sk(std::move(s)) {}
-  std::string obs() {
+  std::string obs() { return obs_of(sk); }
+  static std::string obs_of(const CA& sk) {
     std::string o = "empty=" + str(sk.is_empty()) + "|ordered=" + str(sk.is_ordered()) + "|theta=" + mc::hex64(sk.get_theta64()) + "|n=" + str(sk.get_num_retained()) + "|nv=" + str((int)sk.get_num_values()) + "|seedhash=" + str(sk.get_seed_hash()) + "|est=" + str(sk.get_estimate());
     std::vector<std::string> e;
     for (auto it = sk.begin(); it != sk.end(); ++it) { std::string s = mc::hex64(it->first) + ":"; for (uint8_t j = 0; j < it->second.size(); ++j) s += str(it->second[j]) + ";"; e.push_back(s); }
@@ -176,7 +178,8 @@ typedef hll_sketch_alloc<A8> Hll; typedef hll_union_alloc<A8> HllU;
 struct HllObj : Obj {
   Hll sk; bool updatable;
   HllObj(Hll&& s, bool u): sk(std::move(s)), updatable(u) {}
-  std::string obs() {
+  std::string obs() { return obs_of(sk); }
+  static std::string obs_of(const Hll& sk) {
     std::string o = "lgk=" + str((int)sk.get_lg_config_k()) + "|type=" + str((int)sk.get_target_type()) + "|empty=" + str(sk.is_empty()) + "|mode=" + str((int)sk.get_current_mode()) + "|ooo=" + str(sk.is_out_of_order_flag()) +
       "|est=" + str(sk.get_estimate()) + "|comp=" + str(sk.get_composite_estimate());
     for (uint8_t s = 1; s <= 3; ++s) o += "|b" + str((int)s) + "=" + str(sk.get_lower_bound(s)) + "," + str(sk.get_upper_bound(s));
@@ -242,7 +245,8 @@ typedef cpc_sketch_alloc<A8> Cpc; typedef cpc_union_alloc<A8> CpcU;
 struct CpcObj : Obj {
   Cpc sk;
   explicit CpcObj(Cpc&& s): sk(std::move(s)) {}
-  std::string obs() {
+  std::string obs() { return obs_of(sk); }
+  static std::string obs_of(const Cpc& sk) {
     std::string o = "lgk=" + str((int)sk.get_lg_k()) + "|empty=" + str(sk.is_empty()) + "|c=" + str(sk.get_num_coupons()) + "|est=" + str(sk.get_estimate()) + "|valid=" + str(sk.validate());
     for (unsigned s = 1; s <= 3; ++s) o += "|b" + str(s) + "=" + str(sk.get_lower_bound(s)) + "," + str(sk.get_upper_bound(s));
     auto m = sk.build_bit_matrix(); uint64_t h = 1469598103934665603ULL; for (size_t i = 0; i < m.size(); ++i) h = mc::fnv1a(&m[i], 8, h);
